@@ -32,6 +32,8 @@ MODULES = {
     "pool": ("pool_sql.rs", "crates/erbium-core/src/dhcp/pool.rs", "verif_sql"),
     "opts": ("dhcp_opts.rs", "crates/erbium-core/src/dhcp/dhcppkt.rs", "verif_opts"),
     "routes": ("dns_routes.rs", "crates/erbium-core/src/dns/config.rs", "verif_routes"),
+    "policy": ("dhcp_policy.rs", "crates/erbium-core/src/dhcp/mod.rs", "verif_policy"),
+    "cache": ("dns_cache.rs", "crates/erbium-core/src/dns/cache/mod.rs", "verif_cache"),
 }
 
 
